@@ -81,11 +81,17 @@ structure GView (P : Type) where
 /-- the scorer's list name for the guesser's variable name -/
 def scName (l : String) : String := if l = "Y1" then "Y" else if l = "X1" then "X" else l
 
+/-- the guesser's variable names under which terminals are stored: the length-indexed lists and the
+names `Y1`, `X1` of the year and context lists (`B`, `Y`, `X` are scorer-side list names only) -/
+def TermLabel (l : String) : Prop :=
+  (∃ (c : Char) (n : Nat), (c = 'K' ∨ c = 'A' ∨ c = 'C' ∨ c = 'D' ∨ c = 'O') ∧ l = lbl c n) ∨
+  l = "Y1" ∨ l = "X1"
+
 /-- both tools loaded the same files: whatever the scorer finds with a non-zero probability is in a
 group of that probability of the guesser's variable; the base structure likewise (with the `C<n>`
 inserted after every `A<n>` by the guesser's loader) -/
 structure Agree {P : Type} (zero : P) (g : ScoreG P) (V : GView P) : Prop where
-  term : ∀ (l : String) (v : CPs), g.look zero (scName l) v ≠ zero →
+  term : ∀ (l : String) (v : CPs), TermLabel l → g.look zero (scName l) v ≠ zero →
     ∃ j vals, V.E.values l j = some vals ∧ toStr v ∈ vals ∧ (V.colP l)[j]? = some (g.look zero (scName l) v)
   base : ∀ (labels : List String), (∀ l ∈ labels, ∃ text, LabelOK text l) →
     g.look zero "B" (cpsOfString (String.join labels)) ≠ zero →
